@@ -171,7 +171,7 @@ func check(r *sup.CaseResult, x *run, res *directResult) {
 						failedBefore = true
 					}
 				}
-				if p.Mode == "shared" && (failedBefore || p.syntax > 0) { // a malformed line fails without a log entry
+				if p.Mode == "shared" && (failedBefore || p.syntax > 0) { // malformed lines and refused nested submissions fail without a log entry
 					r.AddObs("valid_submissions_refused_after_a_failure_in_the_shared_scope", 1)
 				} else if r.Inconclusive == "" {
 					r.Inconclusive = fmt.Sprintf("submission of %s (wait %q, all existing) was refused: %v", t.Name, t.Waits, x.runErr[i])
